@@ -1,0 +1,68 @@
+//! Instrumentation for external verification, only compiled with the feature `verif-hooks`.
+//!
+//! Nothing in here changes the behavior of the crate. The planner reports
+//! how much work it did and which cost it predicted, and the ECI numbers
+//! read by the decoder can be observed.
+use alloc::vec::Vec;
+use core::cell::Cell;
+
+use crate::data::DataDecodingError;
+
+/// Counters of the last call of the encodation planner on this thread.
+#[derive(Clone, Copy, Debug, Default, PartialEq, Eq)]
+pub struct PlanStats {
+    /// Number of `Plan::step` calls.
+    pub steps: u64,
+    /// Maximum number of live plans after pruning.
+    pub max_live: usize,
+    /// Number of outer iterations (pruning rounds).
+    pub iterations: usize,
+    /// Cost in whole codewords (rounded up) of the selected plan. The codewords written
+    /// before planning started (macro, FNC1, ECI) are not included.
+    pub chosen_cost: Option<u32>,
+}
+
+std::thread_local! {
+    static STATS: Cell<PlanStats> = const { Cell::new(PlanStats { steps: 0, max_live: 0, iterations: 0, chosen_cost: None }) };
+}
+
+/// Get the counters of the last planner run on this thread.
+pub fn plan_stats() -> PlanStats {
+    STATS.with(|s| s.get())
+}
+
+/// Get the ECIs (output position, ECI number) contained in the data codewords.
+pub fn eci_spans(codewords: &[u8]) -> Result<Vec<(usize, u32)>, DataDecodingError> {
+    crate::decodation::verif_eci_spans(codewords)
+}
+
+pub(crate) fn reset() {
+    STATS.with(|s| s.set(PlanStats::default()));
+}
+
+pub(crate) fn step() {
+    STATS.with(|s| {
+        let mut v = s.get();
+        v.steps += 1;
+        s.set(v);
+    });
+}
+
+pub(crate) fn live(n: usize) {
+    STATS.with(|s| {
+        let mut v = s.get();
+        v.iterations += 1;
+        if n > v.max_live {
+            v.max_live = n;
+        }
+        s.set(v);
+    });
+}
+
+pub(crate) fn chosen(cost: u32) {
+    STATS.with(|s| {
+        let mut v = s.get();
+        v.chosen_cost = Some(cost);
+        s.set(v);
+    });
+}
